@@ -95,17 +95,27 @@ fn handle_summary(state: &AppState) -> String {
 /// Checksum: [64-character SHA-256 hex]\r\n
 /// ```
 fn wrap_in_mime(bpsv_content: &str) -> String {
+    // A multipart boundary must not occur in the part it delimits: database strings are
+    // free text, so extend the boundary until the content does not contain it
+    let mut boundary = String::from("RibbitBoundary");
+    while bpsv_content.contains(&boundary) {
+        boundary.push('_');
+    }
+    let content_type = format!("Content-Type: multipart/alternative; boundary=\"{boundary}\"\r\n");
+    let open_delimiter = format!("--{boundary}\r\n");
+    let close_delimiter = format!("--{boundary}--\r\n");
+
     let mime_parts = [
         "MIME-Version: 1.0\r\n",
-        "Content-Type: multipart/alternative; boundary=\"RibbitBoundary\"\r\n",
+        content_type.as_str(),
         "\r\n",
-        "--RibbitBoundary\r\n",
+        open_delimiter.as_str(),
         "Content-Type: text/plain\r\n",
         "Content-Disposition: data\r\n",
         "\r\n",
         bpsv_content,
         "\r\n",
-        "--RibbitBoundary--\r\n",
+        close_delimiter.as_str(),
     ];
 
     // Calculate SHA-256 checksum of everything before "Checksum:" line
